@@ -21,6 +21,7 @@ Terms are nested tuples (hashable):
 """
 import re
 from . import cfg as _cfg
+from . import facts as _facts
 
 MASKS = {"u8": 8, "u16": 16, "u32": 32, "u64": 64, "u128": 128, "usize": 64,
          "i8": 8, "i16": 16, "i32": 32, "i64": 64, "i128": 128, "isize": 64, "bool": 1, "char": 32}
@@ -237,6 +238,9 @@ def pj_elem(engine, state, frame, e):
     if "ss" in e:
         return ("ss", e["ss"][0], e["ss"][1], e["ss"][2])
     return ("x", str(e))
+
+
+_FRAMES = {}
 
 
 class Engine:
@@ -668,7 +672,7 @@ class Engine:
         frozen_now = tuple(self.freeze(state, x) for x in args)
         app = ("app", fn_args if isinstance(fn_args, str) and fn_args else key, frozen_now)
         if key in self.trace_calls:
-            state.trace.append(("call", key, frozen_now))
+            state.trace.append(("call", key, frozen_now, fn_args if isinstance(fn_args, str) else ""))
         # a callee that receives `&mut` may write through it: forget what is known about the pointee
         if term is not None:
             frozen = None
@@ -792,12 +796,78 @@ class Engine:
                 raise NotTabulable(f"terminator {k} in {key}")
         return out
 
+    def borrow_frame(self, body, tmp, place):
+        """A `&mut place` stored in the temporary `tmp` whose only uses are as the receiver/argument of workspace callees with a known frame
+        (mod_fields): the set of (field element) projections of `place` those callees may modify; None if unknown."""
+        adt = self.P.adts.get(place.get("ty", ""))
+        if not adt or adt["kind"] != "struct":
+            return None
+        fields = set()
+        used = False
+        for blk in body["blocks"]:
+            for s in blk["s"]:
+                for o in _facts.walk_operands(s):
+                    if o.get("k") in ("copy", "move") and o["p"]["l"] == tmp:
+                        return None                                   # flows somewhere other than a call argument
+                if s["k"] == "assign" and s["p"]["l"] == tmp and s["p"]["pj"]:
+                    return None                                       # written through
+            t = blk["t"]
+            if t["k"] != "call":
+                for o in _facts.walk_operands(t):
+                    if o.get("k") in ("copy", "move") and o["p"]["l"] == tmp:
+                        return None
+                continue
+            for j, a in enumerate(t["a"]):
+                if a.get("k") in ("copy", "move") and a["p"]["l"] == tmp:
+                    if a["p"]["pj"] or t["f"].get("k") != "fnref" or t["f"].get("fn") not in self.P.fns or t["f"]["fn"] in self.opaque:
+                        return None
+                    ck = (id(self.P), t["f"]["fn"], j)
+                    if ck not in _FRAMES:
+                        _FRAMES[ck] = None                            # recursion guard
+                        try:
+                            _FRAMES[ck] = mod_fields(self.P, t["f"]["fn"], j)
+                        except (NotTabulable, _facts.AnchorError, KeyError, IndexError):
+                            _FRAMES[ck] = None
+                    fr_ = _FRAMES[ck]
+                    if fr_ is None:
+                        return None
+                    fields |= fr_
+                    used = True
+        if not used:
+            return None
+        out = []
+        for i, f in enumerate(adt["variants"][0]["fields"]):
+            if f["name"] in fields:
+                out.append({"f": i, "ty": f["ty"], "n": f["name"], "a": place["ty"]})
+        return out if len(out) == len(fields) else None
+
+    def loop_places(self, body, blocks):
+        """assigned_places, with a whole-object mutable borrow narrowed to the fields its (workspace) callees may modify."""
+        out = []
+        for i in blocks:
+            b = body["blocks"][i]
+            for s in b["s"]:
+                if s["k"] == "assign":
+                    out.append(s["p"])
+                    r = s["r"]
+                    if (r.get("k") == "ref" and r.get("bk") == "mut") or (r.get("k") == "rawptr" and str(r.get("m", "")).startswith("Mut")):
+                        els = self.borrow_frame(body, s["p"]["l"], r["p"]) if r.get("k") == "ref" and not s["p"]["pj"] else None
+                        if els is None:
+                            out.append(r["p"])
+                        else:
+                            for el in els:
+                                out.append({"l": r["p"]["l"], "pj": list(r["p"]["pj"]) + [el], "ty": el["ty"]})
+            t = b["t"]
+            if t["k"] == "call":
+                out.append(t["d"])
+        return out
+
     def havoc_loop(self, st, fr, body, header, blocks):
         """Generic-iteration abstraction: every place assigned (or mutably borrowed) inside the loop gets an opaque
         loop-carried value ("loopvar", header, place id, value on loop entry)."""
         n = 0
         done = set()
-        for p in _cfg.assigned_places(body, sorted(blocks)):
+        for p in self.loop_places(body, sorted(blocks)):
             pid = (p["l"], tuple(str(e) if not isinstance(e, dict) else tuple(sorted((k, str(v)) for k, v in e.items() if k in ("f", "dc", "n"))) for e in p["pj"]))
             if pid in done:
                 continue
@@ -810,8 +880,11 @@ class Engine:
                     loc = self.loc_of_place(st, fr, p)
                     init = self.freeze(st, self.read_loc(st, loc))
                     self.write_loc(st, loc, ("loopvar", header, pid, init))
-            except Exception:
-                continue
+            except NotTabulable:
+                raise
+            except Exception as e:
+                # a place that cannot be given a loop-carried value must not silently keep its pre-loop value
+                raise NotTabulable(f"cannot summarise loop-assigned place {pid} at bb{header}: {type(e).__name__}")
             n += 1
         return n
 
@@ -1859,12 +1932,19 @@ def mod_fields(P, key, arg_index=0, opaque=()):
     out = set()
     for lf in rets + loops:
         v = lf.ext.get(prm)
-        while v is not None and isinstance(v, tuple) and v and v[0] in ("upd", "mutated"):
+        while v is not None and isinstance(v, tuple) and v and v[0] in ("upd", "mutated", "loopvar"):
             if v[0] == "mutated":
                 return None     # an opaque callee had the whole object: no frame information
+            if v[0] == "loopvar":
+                # the whole object is loop-carried (reborrowed mutably inside a loop): what one iteration changes is in the loopback leaves,
+                # what happened before the loop is in the value on loop entry
+                v = v[3]
+                continue
             path = v[2]
             if not path or path[0][0] != "f":
                 return None
             out.add(path[0][2])
             v = v[1]
+        if v is not None and v != ("obj", prm) and not (isinstance(v, tuple) and v and v[0] == "init"):
+            return None         # the object was replaced as a whole (`*self = ...`): every field may differ
     return out
